@@ -144,9 +144,19 @@ pub fn handle(args: &[&str]) -> Option<String> {
         ["rt-bitsn", lb, ub, ext, n, seed] => {
             let (lb, ub, ext) = (opt_u64(lb)?, opt_u64(ub)?, pbool(ext)?);
             let n: usize = n.parse().ok()?;
-            let data = gen_bytes((n + 7) / 8, seed.parse().ok()?);
+            let seed: u64 = seed.parse().ok()?;
+            let data = gen_bytes((n + 7) / 8, seed);
+            // written from a bit offset 1..7 of a shifted copy: the offset parameter matters for every
+            // fragment of a long value, not only the first
+            let off = 1 + (seed % 7) as usize;
+            let mut shifted = BitBuffer::default();
+            {
+                use asn1rs::protocol::per::unaligned::BitWrite;
+                shifted.write_bits_with_len(&[0xAA], off).ok()?;
+                shifted.write_bits_with_len(&data, n).ok()?;
+            }
             let mut b = BitBuffer::default();
-            match b.write_bitstring(lb, ub, ext, &data, 0, n as u64) {
+            match b.write_bitstring(lb, ub, ext, shifted.content(), off as u64, n as u64) {
                 Err(e) => format!("err {}", per_err(&e)),
                 Ok(()) => {
                     let mut rd = Bits::from((b.content(), b.bit_len()));
